@@ -1,4 +1,6 @@
 import DmlcModel.Split.Files
+import DmlcModel.Split.Shuffle
+import DmlcModel.Gen.Split
 import Driver.Proto
 /-! line-protocol driver of the `Split` model (protocol: see harness/h_split.cc) -/
 namespace Driver.Split
@@ -10,6 +12,11 @@ structure DSt where
   isText : Bool := true
   obj : Option St := none
   poisoned : Bool := false
+  -- InputSplitShuffle object (ops sh*): wrapper state + what the inner split was created with
+  sh : Option (Shuffle.Sh Bytes) := none
+  shText : Bool := true
+  shParts : Nat := 1       -- num_parts * num_shuffle_parts
+  shDefw : Nat := 0
 
 def fmtOf (isText : Bool) : Fmt := if isText then Fmt.text else Fmt.recordio
 
@@ -39,6 +46,20 @@ def showErr : Err → String
 
 def showList (tag : String) (bs : List Bytes) : String :=
   tag ++ String.join (bs.map fun b => " " ++ hexOrDash b) ++ " end"
+
+def parsePerm (t : String) : Option (List Nat) :=
+  if t == "-" then some [] else (t.splitOn ",").mapM String.toNat?
+
+/-- the records of a freshly created split for part `idx` of `parts` (what the inner split of InputSplitShuffle
+delivers after a reset to that part: C05 / C10) -/
+def shSub (isText : Bool) (files : List Bytes) (parts defw : Nat) (idx : Nat) : Except Err (List Bytes) :=
+  let F := fmtOf isText
+  match mkSt F files idx parts defw false defw with
+  | .error e => .error e
+  | .ok s =>
+    match drain F (fun _ => true) s with
+    | (_, .ok bs) => .ok bs
+    | (_, .error e) => .error e
 
 def setAt (l : List Bytes) (i : Nat) (v : Bytes) : Option (List Bytes) :=
   if i < l.length then some (l.set i v) else if i = l.length then some (l ++ [v]) else none
@@ -185,6 +206,52 @@ def step (d : DSt) : List String → DSt × String
             | none => " recs invalid"
           else ""
         ({ d with obj := some s' }, showList "blobs" bs ++ recs ++ " | " ++ showState s')
+  | ["shnew", fmt, k, n, m, defw, perm, _seed] =>
+    match k.toNat?, n.toNat?, m.toNat?, defw.toNat?, parsePerm perm with
+    | some k, some n, some m, some defw, some perm =>
+      let isText := fmt = "text"
+      let d := { d with sh := none, shText := isText, shParts := n * m, shDefw := defw }
+      -- CHECK(num_shuffle_parts > 0); InputSplit::Create: CHECK(part < nsplit)
+      match Shuffle.idxAt perm 0 k m with
+      | .ok idx =>
+        if m = 0 || ¬ (idx < n * m) then (d, "err:check") else
+        match Shuffle.create (shSub isText d.files (n * m) defw) k n m perm with
+        | .ok s => ({ d with sh := some s }, "ok")
+        | .error e => (d, showErr e)
+      | .error e => (d, if m = 0 then "err:check" else showErr e)
+    | _, _, _, _, _ => (d, "bad-op")
+  | ["shrec"] =>
+    match d.sh with
+    | none => (d, "no-object")
+    | some s =>
+      match Shuffle.next (shSub d.shText d.files d.shParts d.shDefw) s with
+      | .ok (some r, s') => ({ d with sh := some s' }, "rec " ++ hexOrDash r)
+      | .ok (none, s') => ({ d with sh := some s' }, "false")
+      | .error e => ({ d with sh := none }, showErr e)
+  | ["shdrain"] =>
+    match d.sh with
+    | none => (d, "no-object")
+    | some s =>
+      -- the state after a full drain: cursor on the last sub-part, nothing left
+      match Shuffle.drain (shSub d.shText d.files d.shParts d.shDefw) s with
+      | .ok rs => ({ d with sh := some { s with cur := s.m - 1, rest := [] } }, showList "recs" rs)
+      | .error e => ({ d with sh := none }, showErr e)
+  | ["shbf", perm] =>
+    match d.sh, parsePerm perm with
+    | some s, some perm =>
+      match Shuffle.beforeFirst (shSub d.shText d.files d.shParts d.shDefw) s perm with
+      | .ok s' => ({ d with sh := some s' }, "ok")
+      | .error e => ({ d with sh := none }, showErr e)
+    | none, _ => (d, "no-object")
+    | _, none => (d, "bad-op")
+  | ["shreset", k, n] =>
+    match d.sh, k.toNat?, n.toNat? with
+    | some s, some k, some n =>
+      match Shuffle.resetPartition Gen.Split.shuffleResetSetsPart (shSub d.shText d.files d.shParts d.shDefw) s k n with
+      | .ok s' => ({ d with sh := some s' }, "ok")
+      | .error e => ({ d with sh := none }, showErr e)
+    | none, _, _ => (d, "no-object")
+    | _, _, _ => (d, "bad-op")
   | _ => (d, "bad-op")
 
 end Driver.Split
